@@ -592,7 +592,10 @@ fn add_dynamic(m: &mut Map<String, J>, rng: &mut impl Rng) {
 
 fn add_noise(m: &mut Map<String, J>, rng: &mut impl Rng) {
     // keys that are not identifiers of the data model: ignored
-    for k in ["foo", "age_over_5", "age_over_abc", "age_over_123", "AGE_OVER_18", "age_over_", "biometric_template", "Family_name", "age_over_1x", "age_over_٢١", "sex ", ""] {
+    // (near misses of the dynamic identifiers: signs, spaces, widths, prefixes that an integer / suffix parser may accept)
+    for k in ["foo", "age_over_5", "age_over_abc", "age_over_123", "AGE_OVER_18", "age_over_", "biometric_template", "Family_name", "age_over_1x", "age_over_٢١", "sex ", "",
+              "age_over_+5", "age_over_-5", "age_over_+0", "age_over_ 5", "age_over_5 ", "age_over_0x", "age_over_1_", "age_over__1", "age_over_1e", "xage_over_18", "age_over_18 ", " age_over_18",
+              "age_over_018", "biometric_template__face", "biometric_template_ ", "Biometric_template_face", "domestic_driving_privileges ", "name_suffix.v2"] {
         if rng.gen_bool(0.08) {
             m.insert(k.to_string(), [json!(true), json!("x"), json!(null), json!(3)].choose(rng).unwrap().clone());
         }
@@ -669,6 +672,16 @@ fn records(ctx: &mut Ctx) {
                 let mut m = build_record(ns, &mut ctx.rng, &|_| false);
                 m.insert(format!("age_over_{nn:02}"), json!(true));
                 record_case(ctx, "one_age_over", ns, &J::Object(m), true);
+            }
+            // every near miss of a dynamic identifier, one at a time, with each value type: it is no identifier of the
+            // data model, so the record is accepted exactly as without it
+            for k in ["age_over_+5", "age_over_-5", "age_over_+0", "age_over_ 5", "age_over_5 ", "age_over_5", "age_over_0x", "age_over_1_", "age_over__1", "age_over_1e", "age_over_018", "age_over_18 ",
+                      " age_over_18", "xage_over_18", "age_over_１８", "age_over_1٢", "biometric_template_", "biometric_template", "Biometric_template_face", "biometric_template__face"] {
+                for v in [json!(true), json!("x"), json!(5), J::Null] {
+                    let mut m = build_record(ns, &mut ctx.rng, &|_| false);
+                    m.insert(k.to_string(), v);
+                    record_case(ctx, "near_miss_identifier", ns, &J::Object(m), true);
+                }
             }
         }
     }
